@@ -56,6 +56,9 @@ CHECKS = {
  "C16": dict(technique="exhaustive enumeration of call histories without state merging (in-process and in fresh processes), every call compared with a stateless reference evaluator (model) and registry snapshots",
    text="All histories of <= 3 (4) operations over {parse, execute on fresh context, exec on long-lived context A / B} x 18 programs (no de-duplication: hidden state must not be merged away), every single operation and ordered pair as the first calls of a fresh process, and ~4000 histories with one register_infix_op at every position (fresh process each): every call's result and context equal the same call made alone, A and B never interact, the registry snapshot never changes under parse/exec.",
    note="Depth 3 (4); leakage needing more calls (a cache with larger capacity) is out of bound; concurrent isolation is covered by the C13 explorer's workloads.", design="§4 C16"),
+ "C13": dict(technique="stateless preemption-bounded exploration (CHESS-style iterative context bounding) of real threads under a controlled baton scheduler, one fresh process per schedule; brute-force linearizability against all sequential orders",
+   text="11 workloads of 2-3 real threads (first use x2 / x3, first use vs override of a built-in, vs new infix operator, vs registrations as first calls, concurrent re-registration, prefix/postfix registration, isolated contexts) run under a scheduler that owns every choice: scheduling points at every Mutex::lock, OnceCell::get_or_init, init stage, thread start/end; all schedules with <= 3 (5) preemptions for 2 threads and <= 1 (2) for 3 threads; per-thread results must equal some sequential order of the calls (orders executed in fresh processes), no panic, no deadlock; replay divergence and uncontrolled blocking are machinery errors.",
+   note="Sound because the crate is unsafe-free and shares state only through Mutex/OnceCell (driver greps for anything else); sequential consistency assumed; std Mutex and once_cell trusted; <= 3 threads, <= 2 calls each. The non-atomicity of one evaluation against two registrations is a recorded known finding (W5).", design="§4 C13"),
 }
 
 def main():
